@@ -14,6 +14,7 @@ import pane
 from pane import PaneBase, field
 from pane.annotations import Tagged, Condition, Positive, NonNegative, len_range, val_range, Negative
 from pane.convert import make_converter, ConverterHandlers
+from pane.types import ValueOrList
 import pane.converters as C
 
 
@@ -137,6 +138,10 @@ TYPES = [
     {'a': int, 'b': str}, {'x': t.List[int]}, (int, str), [int, float, str],
     P2, PT, PAlias, PReq, PRen, PHook, PHook2, PNest, VA,
     t.List[P2], t.Dict[str, PReq], t.Union[PReq, str], t.Optional[PT], t.List[t.Union[int, t.List[int]]],
+    # one side undeclared (Any), the other with a serialisation that differs from the by-runtime-type default
+    t.Dict[t.Any, t.Annotated[t.Union[VA, VB], Tagged('tag', external=True)]], t.Dict[t.Annotated[t.Union[int, str], Tagged('tag')], t.Any],
+    t.Dict[t.Any, PT], t.Union[datetime.date, datetime.datetime], t.Union[datetime.time, datetime.datetime],
+    ValueOrList[int], ValueOrList[PReq], t.List[ValueOrList[str]],
 ]
 
 VALUES = [
@@ -158,6 +163,9 @@ VALUES = [
     re.compile('ab'), datetime.date(2023, 9, 5), datetime.datetime(2023, 9, 5, 1, 2), datetime.time(1, 2), decimal.Decimal('1.5'),
     fractions.Fraction(1, 3), pathlib.PurePosixPath('/a/b'), Color.RED, {1, 2}, frozenset({'a'}), collections.deque([1, 2]),
     BareMapping({'tag': 'b', 'y': 'q'}), BareMapping({'a': 1, 'b': 'x'}), BareMapping({'n': 2}),
+    {'k': {'a': {'x': 3}}}, {1: {'a': {'x': 3}}, 'z': {'b': {'y': 'q'}}}, {'k': [1, 5]},
+    # mappings with __missing__: a look-up of an absent key inserts it (C09)
+    collections.defaultdict(list, {'p': 1, 'q': 2}), collections.defaultdict(list, {'x': 3}), collections.defaultdict(list),
 ]
 
 
@@ -329,6 +337,8 @@ def _fdu_instances(m):
         full = {n: 1 for n in names}
         for sf in (None, set(), set(names[:1]), set(names)):
             out += _closure_instances(fn, [(cls, full, sf)], f'{cls.__name__}.from_dict_unchecked')
+        # a partial mapping (the documented use: the caller vouches for what it passes); the caller's dict must stay as it is
+        out += _closure_instances(fn, [(cls, {names[0]: 1}, None)], f'{cls.__name__}.from_dict_unchecked[partial]')
     return out
 
 
@@ -610,7 +620,6 @@ VALUES.extend([{'W': 1, 'width': 2}, [{'W': 1, 'width': 2}], [{'n': 'x'}]])
 
 
 # ---- further pool entries: unions typing cannot flatten, overlapping tuple members, handler normalisation ---------------------
-from pane.types import ValueOrList
 TYPES.extend([t.Optional[ValueOrList[int]], t.Union[str, t.Annotated[t.Union[int, float], Positive]],
               t.Union[t.Tuple[fractions.Fraction, int], t.Tuple[int, fractions.Fraction]], t.List[t.Any], t.Dict[str, t.Any], t.Set[Color],
               t.Union[Color, float]])
@@ -632,3 +641,24 @@ def _process_handler_instances(m):
 
 CUSTOM['pane.convert:ConverterHandlers._process'] = _process_handler_instances
 HANDLER_SETS.append(ConverterHandlers.make({list: _Dbl(), int: _Dbl()}))
+
+
+# ---- _maybe_make_hash: every row of the rule table on a fresh class (the real function, a stand-in class object) ------------
+def _mmh_instances(m):
+    import itertools, types as _types
+    import pane.classes as C
+    out = []
+    flds = tuple(PANE_CLASSES[0].__pane_info__.fields)
+    for uh, eq, fr, explicit, has_eq in itertools.product([False, True], repeat=5):
+        body = {}
+        if explicit:
+            body['__hash__'] = lambda self: 7
+        if has_eq:
+            body['__eq__'] = lambda self, other: self is other
+        K = type('K', (object,), body)
+        K.__pane_info__ = _types.SimpleNamespace(opts=C.PaneOptions(eq=eq, frozen=fr, unsafe_hash=uh))
+        out.append((C._maybe_make_hash, ['cls', 'fields'], (K, flds), f'_maybe_make_hash(unsafe_hash={uh}, eq={eq}, frozen={fr}, explicit={explicit}, eq_defined={has_eq})'))
+    return out
+
+
+CUSTOM['pane.classes:_maybe_make_hash'] = _mmh_instances
